@@ -45,7 +45,8 @@ def features(lib):
 def run(chk):
     thorough = chk.tier == "thorough"
     cfg = os.path.join(chk.workdir, "gdssem.cfg")
-    open(cfg, "w").write("SPECIFICATION Spec\nINVARIANTS CountOK QuadPointsOK Emit\nCHECK_DEADLOCK FALSE\n")
+    ndeep = 5000 if chk.tier == "thorough" else 25
+    open(cfg, "w").write(f"SPECIFICATION Spec\nCONSTANT NDeep = {ndeep}\nINVARIANTS CountOK QuadPointsOK Emit\nCHECK_DEADLOCK FALSE\n")
     r = chk.tlc.check(os.path.join(D, "MC_GdsSemantics.tla"), cfg, timeout=3600)
     chk.add_tlc("MC_GdsSemantics hierarchies, arrays, labels, malformed libraries", r)
     chk.tlc_must_pass("MC_GdsSemantics", r)
